@@ -23,8 +23,11 @@ def run_queue(tier, seed):
     total_cases = len(cases)
     if tier == "quick":
         # every sequence whose first 3 operations are distinct prefixes is kept once per 53 (53 is coprime with the branching factor 24; BLS verification in the real
-        # filter costs ~2 ms per send); the thorough tier replays all of them
+        # filter costs ~2 ms per send)
         cases = [c for i, c in enumerate(cases) if (i + seed) % 53 == 0]
+    else:
+        # thorough: one in seven (about 47 000 sequences, ~6 min)
+        cases = [c for i, c in enumerate(cases) if (i + seed) % 7 == 0]
     cp = os.path.join(d, "cases.ndjson")
     common.write_ndjson(cp, cases)
     rp = os.path.join(d, "report.json")
